@@ -284,3 +284,758 @@ theorem lookup_ne_nil {m : MultiMap κ ν} (h : WF m) {k : κ} {vs : List ν} (h
 
 end MDLemmas
 end Wz
+
+namespace Wz
+namespace HSLemmas
+open Hdr HS
+
+theorem length_eq_of_nodup_mem_iff {α : Type} [DecidableEq α] :
+    ∀ (a b : List α), a.Nodup → b.Nodup → (∀ x, x ∈ a ↔ x ∈ b) → a.length = b.length
+  | [], b, _, _, h => by
+    cases b with
+    | nil => rfl
+    | cons y t => exact absurd ((h y).2 List.mem_cons_self) (by simp)
+  | x :: a, b, ha, hb, h => by
+    have hx : x ∈ b := (h x).1 List.mem_cons_self
+    have hxa : x ∉ a := (List.nodup_cons.1 ha).1
+    have ih := length_eq_of_nodup_mem_iff a (b.erase x) (List.nodup_cons.1 ha).2 (hb.erase x) (by
+      intro y
+      rw [hb.mem_erase_iff]
+      constructor
+      · intro hy
+        exact ⟨fun e => hxa (e ▸ hy), (h y).1 (List.mem_cons_of_mem _ hy)⟩
+      · intro ⟨hne, hy⟩
+        rcases List.mem_cons.1 ((h y).2 hy) with e | e
+        · exact absurd e hne
+        · exact e)
+    rw [List.length_erase_of_mem hx] at ih
+    have : 0 < b.length := List.length_pos_of_mem hx
+    simp only [List.length_cons]; omega
+
+theorem map_lower_dropFirst (key : Str) (hs : List Str) :
+    (dropFirst key hs).map lower = (hs.map lower).erase key := by
+  induction hs with
+  | nil => rfl
+  | cons h t ih =>
+    simp only [dropFirst, List.map_cons, List.erase_cons]
+    by_cases hk : (lower h == key) = true
+    · simp [hk]
+    · simp [hk, ih]
+
+theorem dropFirst_eq_filter (key : Str) (hs : List Str) (hn : (hs.map lower).Nodup) :
+    dropFirst key hs = hs.filter (fun x => !(lower x == key)) := by
+  induction hs with
+  | nil => rfl
+  | cons h t ih =>
+    simp only [List.map_cons, List.nodup_cons] at hn
+    simp only [dropFirst, List.filter_cons]
+    by_cases hk : (lower h == key) = true
+    · simp only [hk, if_true, Bool.not_true, Bool.false_eq_true, if_false]
+      symm
+      rw [List.filter_eq_self]
+      intro x hx
+      have : lower x ≠ key := by
+        intro e
+        apply hn.1
+        rw [beq_iff_eq] at hk
+        rw [hk, ← e]
+        exact List.mem_map_of_mem hx
+      simp [this]
+    · simp [hk, ih hn.2]
+
+theorem split_at {α : Type} (l : List α) (n : Nat) (h : n < l.length) :
+    l = l.take n ++ l[n] :: l.drop (n + 1) := by
+  rw [← List.drop_eq_getElem_cons h, List.take_append_drop]
+
+theorem mem_setAdd (s : List Str) (x y : Str) : y ∈ setAdd s x ↔ y ∈ s ∨ y = x := by
+  unfold setAdd
+  by_cases h : x ∈ s
+  · have hc : s.contains x = true := by simpa using h
+    simp only [hc, if_true]
+    constructor
+    · exact Or.inl
+    · rintro (h1 | h1)
+      · exact h1
+      · subst h1; exact h
+  · have hc : s.contains x = false := by simpa using h
+    simp only [hc, Bool.false_eq_true, if_false, List.mem_append, List.mem_singleton]
+
+theorem nodup_setAdd (s : List Str) (x : Str) (h : s.Nodup) : (setAdd s x).Nodup := by
+  unfold setAdd
+  by_cases hm : x ∈ s
+  · have hc : s.contains x = true := by simpa using hm
+    simp only [hc, if_true]; exact h
+  · have hc : s.contains x = false := by simpa using hm
+    simp only [hc, Bool.false_eq_true, if_false]
+    rw [List.nodup_append]
+    refine ⟨h, by simp, ?_⟩
+    intro a ha b hb
+    simp at hb; subst hb
+    intro e; subst e
+    exact hm ha
+
+end HSLemmas
+end Wz
+
+/-! ### MultiDict refines the multimap model -/
+namespace Wz.C08L
+open Wz PyDict MD MDSpec MDLemmas
+variable {κ ν : Type} [DecidableEq κ]
+
+
+/-- the operations of a history that stay inside the multimap model: everything except giving a
+key an empty value list (`setlist(k, [])`, `setlistdefault(k)` on a missing key) - F08d -/
+def okOp (c : MD.St κ ν) : MD.Op κ ν → Bool
+  | .setlist _ vs => !vs.isEmpty
+  | .setlistdefault k vs => has c k || !vs.isEmpty
+  | _ => true
+
+theorem first?_eq (m : MultiMap κ ν) (h : WF m) (k : κ) :
+    first? m k = match m.lookup k with | some (v :: _) => some v | _ => none := by
+  unfold first?
+  rw [valuesOf_eq m h.1]
+  cases hl : m.lookup k with
+  | none => simp
+  | some vs =>
+    cases vs with
+    | nil => exact absurd rfl (lookup_ne_nil h hl)
+    | cons v t => simp
+
+theorem md_step_refines (c : MD.St κ ν) (h : WF c) (op : MD.Op κ ν) (hop : okOp c op = true) :
+    MD.step c op = MDSpec.step c op := by
+  have hn := h.1
+  cases op with
+  | setitem k v => simp [MD.step, MDSpec.step, put_eq_set c hn]
+  | delitem k => simp [MD.step, MDSpec.step, hasKey_eq, remove_eq_erase c hn]
+  | add k v => simp [MD.step, MDSpec.step, add_eq c hn]
+  | setlist k vs =>
+    simp only [okOp, Bool.not_eq_true'] at hop
+    simp [MD.step, MDSpec.step, hop, put_eq_set c hn]
+  | setdefault k v =>
+    simp only [MD.step, MDSpec.step]
+    rw [first?_eq c h]
+    cases hl : c.lookup k with
+    | none =>
+      have : has c k = false := by simp [has, hl]
+      simp [this, put_eq_set c hn, getitem, get?, lookup_set_self, Except.map]
+    | some vs =>
+      have hne := lookup_ne_nil h hl
+      cases vs with
+      | nil => exact absurd rfl hne
+      | cons x t =>
+        have : has c k = true := by simp [has, hl]
+        simp [this, getitem, get?, hl, Except.map]
+  | setlistdefault k vs =>
+    simp only [MD.step, MDSpec.step, hasKey_eq]
+    by_cases hh : has c k = true
+    · simp [hh, MD.getlist, get?, valuesOf_eq c hn]
+    · have hh' : has c k = false := by simpa using hh
+      simp only [okOp, hh', Bool.false_or, Bool.not_eq_true'] at hop
+      simp [hh', hop, put_eq_set c hn, MD.getlist, get?, lookup_set_self]
+  | update a => simp [MD.step, MDSpec.step, addAll_eq c hn]
+  | ior a => simp [MD.step, MDSpec.step, addAll_eq c hn]
+  | pop k d =>
+    simp only [MD.step, MDSpec.step]
+    rw [first?_eq c h]
+    unfold get?
+    cases hl : c.lookup k with
+    | none => simp
+    | some vs =>
+      have hne := lookup_ne_nil h hl
+      cases vs with
+      | nil => exact absurd rfl hne
+      | cons x t => simp [remove_eq_erase c hn]
+  | popitem =>
+    simp only [MD.step, MDSpec.step, PyDict.popitem]
+    cases hl : c.getLast? with
+    | none => simp
+    | some e =>
+      obtain ⟨k, vs⟩ := e
+      have hne := h.2 _ (List.mem_of_getLast? hl)
+      cases vs with
+      | nil => exact absurd rfl hne
+      | cons x t => simp
+  | poplist k =>
+    simp only [MD.step, MDSpec.step]
+    rw [valuesOf_eq c hn, remove_eq_erase c hn]
+    unfold get?
+    cases hl : c.lookup k with
+    | none =>
+      have : k ∉ keys c := by
+        intro hm; have := (mem_keys_iff_lookup c k).1 hm; simp [hl] at this
+      have : erase c k = c := by
+        rw [erase_eq_filter c k hn, List.filter_eq_self]
+        intro e he
+        have : e.1 ≠ k := by
+          intro heq; apply this; rw [← heq]; exact List.mem_map_of_mem (f := fun x => x.1) he
+        simp [this]
+      simp [this]
+    | some vs => simp
+  | popitemlist =>
+    simp only [MD.step, MDSpec.step, PyDict.popitem]
+    cases hl : c.getLast? with
+    | none => simp
+    | some e => obtain ⟨k, vs⟩ := e; simp
+  | clear => simp [MD.step, MDSpec.step]
+
+
+theorem md_step_wf (c : MD.St κ ν) (h : WF c) (op : MD.Op κ ν) (hop : okOp c op = true) :
+    WF (MD.step c op).1 := by
+  cases op with
+  | setitem k v => exact wf_set h k (by simp)
+  | delitem k =>
+    simp only [MD.step]
+    split
+    · exact wf_erase h k
+    · exact h
+  | add k v => exact wf_add h k v
+  | setlist k vs =>
+    simp only [okOp, Bool.not_eq_true'] at hop
+    exact wf_set h k (by intro e; simp [e] at hop)
+  | setdefault k v =>
+    simp only [MD.step]
+    split
+    · exact h
+    · exact wf_set h k (by simp)
+  | setlistdefault k vs =>
+    simp only [MD.step]
+    by_cases hh : has c k = true
+    · simp only [hh, if_true]; exact h
+    · have hh' : has c k = false := by simpa using hh
+      simp only [okOp, hh', Bool.false_or, Bool.not_eq_true'] at hop
+      simp only [hh']
+      exact wf_set h k (by intro e; simp [e] at hop)
+  | update a => exact wf_addAll h _
+  | ior a => exact wf_addAll h _
+  | pop k d =>
+    simp only [MD.step]
+    split
+    · exact wf_erase h k
+    · exact wf_erase h k
+    · exact h
+  | popitem =>
+    simp only [MD.step, PyDict.popitem]
+    cases hl : c.getLast? with
+    | none => exact h
+    | some e =>
+      obtain ⟨k, vs⟩ := e
+      cases vs <;> exact wf_dropLast h
+  | poplist k =>
+    simp only [MD.step]
+    split
+    · exact wf_erase h k
+    · exact h
+  | popitemlist =>
+    simp only [MD.step, PyDict.popitem]
+    cases hl : c.getLast? with
+    | none => exact h
+    | some e => exact wf_dropLast h
+  | clear => exact ⟨by simp [MD.step], by simp [MD.step]⟩
+
+omit [DecidableEq κ] in
+theorem itemsFirst_wf (c : MD.St κ ν) (h : ∀ e ∈ c, e.2 ≠ []) :
+    itemsFirst c = .ok (c.filterMap (fun e => e.2.head?.map (fun v => (e.1, v)))) := by
+  induction c with
+  | nil => rfl
+  | cons e t ih =>
+    obtain ⟨k, vs⟩ := e
+    have hne := h (k, vs) List.mem_cons_self
+    cases vs with
+    | nil => exact absurd rfl hne
+    | cons v r =>
+      have := ih (fun e he => h e (List.mem_cons_of_mem _ he))
+      simp [itemsFirst, this]
+
+theorem md_read_refines (c : MD.St κ ν) (h : WF c) (q : Query κ) : MD.read c q = MDSpec.read c q := by
+  cases q with
+  | getitem k =>
+    simp only [MD.read, MDSpec.read, first?_eq c h, getitem, get?]
+    cases hl : c.lookup k with
+    | none => rfl
+    | some vs => cases vs <;> rfl
+  | getlist k => simp [MD.read, MDSpec.read, MD.getlist, get?, valuesOf_eq c h.1]
+  | contains k => simp [MD.read, MDSpec.read, hasKey_eq]
+  | len => rfl
+  | keys => rfl
+  | values =>
+    simp only [MD.read, MDSpec.read, MD.values, itemsFirst_wf c h.2, Except.map]
+    simp [List.map_filterMap, Option.map_map, Function.comp_def]
+  | items multi =>
+    cases multi with
+    | false => simp [MD.read, MDSpec.read, itemsFirst_wf c h.2, Except.map]
+    | true => rfl
+  | lists => rfl
+  | listvalues => rfl
+  | toDict flat =>
+    cases flat with
+    | true => simp [MD.read, MDSpec.read, toDictFlat, itemsFirst_wf c h.2, Except.map]
+    | false => rfl
+
+/-- a history all of whose steps stay inside the multimap model -/
+def okHist (c : MD.St κ ν) : List (MD.Op κ ν) → Bool
+  | [] => true
+  | op :: t => okOp c op && okHist (MD.step c op).1 t
+
+theorem md_run_refines (c : MD.St κ ν) (h : WF c) (ops : List (MD.Op κ ν)) (hok : okHist c ops = true) :
+    MD.run c ops = MDSpec.run c ops ∧ WF (MD.run c ops) := by
+  induction ops generalizing c with
+  | nil => exact ⟨rfl, h⟩
+  | cons op t ih =>
+    simp only [okHist, Bool.and_eq_true] at hok
+    simp only [MD.run, MDSpec.run]
+    rw [← md_step_refines c h op hok.1]
+    exact ih _ (md_step_wf c h op hok.1) hok.2
+
+
+end Wz.C08L
+
+/-! ### HeaderSet -/
+namespace Wz.C08L
+open Wz Hdr HS HSLemmas
+
+theorem pyIdx_lt {n : Nat} {i : Int} {k : Nat} (h : pyIdx n i = some k) : k < n := by
+  unfold pyIdx at h
+  split at h
+  · split at h
+    · simp at h; omega
+    · simp at h
+  · split at h
+    · simp at h; omega
+    · simp at h
+
+theorem inv_append (c : St) (h : Inv c) (x : Str) (hx : c.set.contains (lower x) = false) :
+    Inv ⟨c.headers ++ [x], c.set ++ [lower x]⟩ := by
+  obtain ⟨h1, h2, h3⟩ := h
+  have hx' : lower x ∉ c.set := by simpa using hx
+  have hx'' : lower x ∉ c.headers.map lower := fun hm => hx' ((h3 _).2 hm)
+  refine ⟨?_, ?_, ?_⟩
+  · simp only [List.map_append, List.map_cons, List.map_nil]
+    rw [List.nodup_append]
+    refine ⟨h1, by simp, ?_⟩
+    intro a ha b hb
+    simp at hb; subst hb
+    intro e; subst e; exact hx'' ha
+  · rw [List.nodup_append]
+    refine ⟨h2, by simp, ?_⟩
+    intro a ha b hb
+    simp at hb; subst hb
+    intro e; subst e; exact hx' ha
+  · intro y
+    simp only [List.mem_append, List.mem_singleton, List.map_append, List.map_cons, List.map_nil]
+    rw [h3 y]
+
+theorem inv_updateLoop (c : St) (h : Inv c) (hs : List Str) : Inv (updateLoop c hs).1 := by
+  induction hs generalizing c with
+  | nil => exact h
+  | cons x t ih =>
+    simp only [updateLoop]
+    cases hc : c.set.contains (lower x) with
+    | true => simp only [if_true]; exact ih c h
+    | false => simp only [Bool.false_eq_true, if_false]; exact ih _ (inv_append c h x hc)
+
+theorem mem_iff_contains (c : St) (h : Inv c) (x : Str) : HSSpec.mem c.headers x = c.set.contains (lower x) := by
+  unfold HSSpec.mem
+  have := h.2.2 (lower x)
+  by_cases hm : lower x ∈ c.set
+  · have h1 : c.set.contains (lower x) = true := by simpa using hm
+    have h2 : (c.headers.map lower).contains (lower x) = true := by
+      rw [List.contains_iff_mem]; exact this.1 hm
+    rw [h1, h2]
+  · have h1 : c.set.contains (lower x) = false := by simpa using hm
+    have h2 : (c.headers.map lower).contains (lower x) = false := by
+      cases hh : (c.headers.map lower).contains (lower x) with
+      | false => rfl
+      | true => rw [List.contains_iff_mem] at hh; exact absurd (this.2 hh) hm
+    rw [h1, h2]
+
+theorem updateLoop_spec (c : St) (h : Inv c) (hs : List Str) :
+    (updateLoop c hs).1.headers = HSSpec.insertAll c.headers hs := by
+  induction hs generalizing c with
+  | nil => rfl
+  | cons x t ih =>
+    simp only [updateLoop, HSSpec.insertAll, HSSpec.insert, mem_iff_contains c h]
+    cases hc : c.set.contains (lower x) with
+    | true => simp only [if_true]; exact ih c h
+    | false =>
+      simp only [Bool.false_eq_true, if_false]
+      exact ih _ (inv_append c h x hc)
+
+theorem inv_remove_key (c : St) (h : Inv c) (key : Str) :
+    Inv ⟨dropFirst key c.headers, c.set.erase key⟩ := by
+  obtain ⟨h1, h2, h3⟩ := h
+  refine ⟨?_, h2.erase key, ?_⟩
+  · rw [map_lower_dropFirst]; exact h1.erase key
+  · intro y
+    simp only []
+    rw [map_lower_dropFirst, h2.mem_erase_iff, h1.mem_erase_iff, h3 y]
+
+
+theorem eraseIdx_eq_dropFirst (hs : List Str) (hn : (hs.map lower).Nodup) (n : Nat) (rv : Str)
+    (hg : hs[n]? = some rv) : hs.eraseIdx n = dropFirst (lower rv) hs := by
+  induction hs generalizing n with
+  | nil => simp at hg
+  | cons h t ih =>
+    simp only [List.map_cons, List.nodup_cons] at hn
+    cases n with
+    | zero =>
+      simp at hg; subst hg
+      simp [dropFirst]
+    | succ m =>
+      simp only [List.getElem?_cons_succ] at hg
+      have hmem : rv ∈ t := List.mem_of_getElem? hg
+      have hne : ¬ (lower h == lower rv) = true := by
+        rw [beq_iff_eq]
+        intro e; apply hn.1; rw [e]; exact List.mem_map_of_mem hmem
+      simp only [List.eraseIdx_cons_succ, dropFirst, hne]
+      simp [ih hn.2 m hg]
+
+/-- `del hs[i]` keeps the invariant -/
+theorem inv_delitem (c : St) (h : Inv c) (i : Int) : Inv (delitem c i).st := by
+  unfold delitem
+  cases hp : pyIdx c.headers.length i with
+  | none => exact h
+  | some n =>
+    simp only
+    cases hg : c.headers[n]? with
+    | none => exact h
+    | some rv =>
+      simp only
+      have hc : c.set.contains (lower rv) = true := by
+        rw [List.contains_iff_mem, h.2.2]
+        exact List.mem_map_of_mem (List.mem_of_getElem? hg)
+      simp only [hc, if_true]
+      rw [eraseIdx_eq_dropFirst c.headers h.1 n rv hg]
+      exact inv_remove_key c h (lower rv)
+
+/-- the value assigned by `hs[i] = v` is not already a member at another position -/
+def setitemOk (c : St) (i : Int) (v : Str) : Bool :=
+  match pyIdx c.headers.length i with
+  | none => true
+  | some n => !((c.headers.eraseIdx n).map lower).contains (lower v)
+
+theorem inv_setitem (c : St) (h : Inv c) (i : Int) (v : Str) (hok : setitemOk c i v = true) :
+    Inv (setitem c i v).st := by
+  unfold setitem
+  unfold setitemOk at hok
+  cases hp : pyIdx c.headers.length i with
+  | none => exact h
+  | some n =>
+    rw [hp] at hok
+    simp only at hok ⊢
+    have hlt := pyIdx_lt hp
+    cases hg : c.headers[n]? with
+    | none => exact h
+    | some old =>
+      simp only
+      have hc : c.set.contains (lower old) = true := by
+        rw [List.contains_iff_mem, h.2.2]
+        exact List.mem_map_of_mem (List.mem_of_getElem? hg)
+      simp only [hc, if_true]
+      have hrem := inv_remove_key c h (lower old)
+      rw [← eraseIdx_eq_dropFirst c.headers h.1 n old hg] at hrem
+      obtain ⟨r1, r2, r3⟩ := hrem
+      have hv : lower v ∉ (c.headers.eraseIdx n).map lower := by
+        simpa using hok
+      simp only [List.eraseIdx_eq_take_drop_succ] at r1 r3 hv
+      have hset : c.headers.set n v = c.headers.take n ++ v :: c.headers.drop (n + 1) := by
+        rw [List.set_eq_take_append_cons_drop]; simp [hlt]
+      refine ⟨?_, nodup_setAdd _ _ r2, ?_⟩
+      · simp only [hset, List.map_append, List.map_cons]
+        rw [List.perm_middle.nodup_iff, List.nodup_cons]
+        simp only [List.map_append] at r1 hv
+        exact ⟨hv, r1⟩
+      · intro y
+        simp only [hset]
+        rw [mem_setAdd, r3 y]
+        simp only [List.map_append, List.map_cons, List.mem_append, List.mem_cons]
+        constructor
+        · rintro ((h1 | h1) | h1)
+          · exact Or.inl h1
+          · exact Or.inr (Or.inr h1)
+          · exact Or.inr (Or.inl h1)
+        · rintro (h1 | h1 | h1)
+          · exact Or.inl (Or.inl h1)
+          · exact Or.inr h1
+          · exact Or.inl (Or.inr h1)
+
+/-- every operation other than item assignment keeps the invariant; item assignment keeps it when
+the assigned value is not a member elsewhere -/
+def hsOk (c : St) : HS.Op → Bool
+  | .setitem i v => setitemOk c i v
+  | _ => true
+
+theorem hs_inv_preserved (c : St) (h : Inv c) (op : HS.Op) (hok : hsOk c op = true) :
+    Inv (HS.step c op).st := by
+  cases op with
+  | add x => exact inv_updateLoop c h [x]
+  | remove x =>
+    simp only [HS.step, HS.remove]
+    split
+    · exact inv_remove_key c h (lower x)
+    · exact h
+  | discard x =>
+    simp only [HS.step, HS.discard, HS.remove]
+    split
+    · exact inv_remove_key c h (lower x)
+    · exact h
+  | update hs => exact inv_updateLoop c h hs
+  | clear => exact ⟨by simp [HS.step], by simp [HS.step], by simp [HS.step]⟩
+  | delitem i => exact inv_delitem c h i
+  | setitem i v => exact inv_setitem c h i v hok
+
+
+theorem filter_self_of_not_mem (s : List Str) (x : Str) (h : HSSpec.mem s x = false) :
+    HSSpec.delete s x = s := by
+  unfold HSSpec.delete
+  rw [List.filter_eq_self]
+  intro y hy
+  have : lower y ≠ lower x := by
+    intro e
+    have : HSSpec.mem s x = true := by
+      unfold HSSpec.mem
+      rw [List.contains_iff_mem, ← e]
+      exact List.mem_map_of_mem hy
+    rw [h] at this; exact Bool.noConfusion this
+  simp [this]
+
+theorem hs_step_refines (c : St) (h : Inv c) (op : HS.Op) :
+    (HS.step c op).st.headers = (HSSpec.step c.headers op).1 ∧
+    (HS.step c op).res = (HSSpec.step c.headers op).2 := by
+  cases op with
+  | add x =>
+    have := updateLoop_spec c h [x]
+    simp only [HSSpec.insertAll] at this
+    exact ⟨this, rfl⟩
+  | update hs => exact ⟨updateLoop_spec c h hs, rfl⟩
+  | clear => exact ⟨rfl, rfl⟩
+  | remove x =>
+    simp only [HS.step, HS.remove, HSSpec.step, mem_iff_contains c h]
+    cases hc : c.set.contains (lower x) with
+    | true => simp only [if_true]; exact ⟨dropFirst_eq_filter _ _ h.1, trivial⟩
+    | false => exact ⟨rfl, rfl⟩
+  | discard x =>
+    simp only [HS.step, HS.discard, HS.remove, HSSpec.step]
+    cases hc : c.set.contains (lower x) with
+    | true => simp only [if_true]; exact ⟨dropFirst_eq_filter _ _ h.1, trivial⟩
+    | false =>
+      simp only [Bool.false_eq_true, if_false]
+      have : HSSpec.mem c.headers x = false := by rw [mem_iff_contains c h, hc]
+      exact ⟨(filter_self_of_not_mem _ _ this).symm, trivial⟩
+  | delitem i =>
+    simp only [HS.step, HS.delitem, HSSpec.step]
+    cases hp : pyIdx c.headers.length i with
+    | none => exact ⟨rfl, rfl⟩
+    | some n =>
+      have hlt := pyIdx_lt hp
+      have hg : c.headers[n]? = some c.headers[n] := List.getElem?_eq_getElem hlt
+      simp only [hg]
+      have hc : c.set.contains (lower c.headers[n]) = true := by
+        rw [List.contains_iff_mem, h.2.2]
+        exact List.mem_map_of_mem (List.getElem_mem hlt)
+      simp only [hc, if_true]
+      refine ⟨?_, ?_⟩ <;> first | rfl | trivial
+  | setitem i v =>
+    simp only [HS.step, HS.setitem, HSSpec.step]
+    cases hp : pyIdx c.headers.length i with
+    | none => exact ⟨rfl, rfl⟩
+    | some n =>
+      have hlt := pyIdx_lt hp
+      have hg : c.headers[n]? = some c.headers[n] := List.getElem?_eq_getElem hlt
+      simp only [hg]
+      have hc : c.set.contains (lower c.headers[n]) = true := by
+        rw [List.contains_iff_mem, h.2.2]
+        exact List.mem_map_of_mem (List.getElem_mem hlt)
+      simp only [hc, if_true]
+      refine ⟨?_, ?_⟩ <;> first | rfl | trivial
+
+theorem hs_len_eq (c : St) (h : Inv c) : HS.len c = c.headers.length := by
+  unfold HS.len
+  rw [length_eq_of_nodup_mem_iff c.set (c.headers.map lower) h.2.1 h.1 h.2.2, List.length_map]
+
+def hsSpecRun (s : HSSpec.CISet) : List HS.Op → HSSpec.CISet
+  | [] => s
+  | op :: t => hsSpecRun (HSSpec.step s op).1 t
+
+def hsOkHist (c : St) : List HS.Op → Bool
+  | [] => true
+  | op :: t => hsOk c op && hsOkHist (HS.step c op).st t
+
+theorem hs_run_refines (c : St) (h : Inv c) (ops : List HS.Op) (hok : hsOkHist c ops = true) :
+    Inv (HS.run c ops) ∧ (HS.run c ops).headers = hsSpecRun c.headers ops := by
+  induction ops generalizing c with
+  | nil => exact ⟨h, rfl⟩
+  | cons op t ih =>
+    simp only [hsOkHist, Bool.and_eq_true] at hok
+    simp only [HS.run, hsSpecRun]
+    have := ih _ (hs_inv_preserved c h op hok.1) hok.2
+    rw [(hs_step_refines c h op).1] at this
+    exact this
+
+theorem foldl_setAdd (l : List Str) (s : List Str) (hs : s.Nodup) :
+    (l.foldl (fun s h => setAdd s (lower h)) s).Nodup ∧
+    ∀ x, x ∈ l.foldl (fun s h => setAdd s (lower h)) s ↔ x ∈ s ∨ x ∈ l.map lower := by
+  induction l generalizing s with
+  | nil => simp [hs]
+  | cons a t ih =>
+    simp only [List.foldl_cons]
+    have := ih (setAdd s (lower a)) (nodup_setAdd _ _ hs)
+    refine ⟨this.1, ?_⟩
+    intro x
+    rw [this.2 x, mem_setAdd]
+    simp only [List.map_cons, List.mem_cons]
+    constructor
+    · rintro ((h1 | h1) | h1)
+      · exact Or.inl h1
+      · exact Or.inr (Or.inl h1)
+      · exact Or.inr (Or.inr h1)
+    · rintro (h1 | h1 | h1)
+      · exact Or.inl (Or.inl h1)
+      · exact Or.inl (Or.inr h1)
+      · exact Or.inr h1
+
+theorem hs_construct_inv (l : List Str) (h : (l.map lower).Nodup) : Inv (HS.construct l) := by
+  have := foldl_setAdd l [] (by simp)
+  refine ⟨h, this.1, ?_⟩
+  intro x
+  simp only [HS.construct]
+  rw [this.2 x]; simp
+
+
+end Wz.C08L
+
+/-! ### Headers.set -/
+namespace Wz.C08L
+open Wz Hdr
+
+theorem keyEq_self (k v : Str) : keyEq k (k, v) = true := by simp [keyEq]
+
+theorem strHeaderValue_ok {v : Str} (h : hasNL v = false) : strHeaderValue v = .ok v := by
+  simp [strHeaderValue, h]
+
+theorem setLoop_filter_self (k v : Str) (l r : HList) (h : setLoop k v l = some r) :
+    r.filter (keyEq k) = [(k, v)] := by
+  induction l generalizing r with
+  | nil => simp [setLoop] at h
+  | cons p t ih =>
+    simp only [setLoop] at h
+    by_cases hp : keyEq k p = true
+    · simp only [hp, if_true, Option.some.injEq] at h
+      subst h
+      rw [List.filter_cons, keyEq_self]
+      simp only [if_true, List.filter_filter]
+      congr 1
+      rw [List.filter_eq_nil_iff]
+      intro a _
+      cases keyEq k a <;> simp
+    · have hp' : keyEq k p = false := by simpa using hp
+      simp only [hp', Bool.false_eq_true, if_false] at h
+      cases hs : setLoop k v t with
+      | none => simp [hs] at h
+      | some r' =>
+        simp only [hs, Option.map_some, Option.some.injEq] at h
+        subst h
+        rw [List.filter_cons]
+        simp only [hp', Bool.false_eq_true, if_false]
+        exact ih r' hs
+
+theorem setLoop_filter_other (k v : Str) (l r : HList) (h : setLoop k v l = some r) :
+    r.filter (fun p => !keyEq k p) = l.filter (fun p => !keyEq k p) := by
+  induction l generalizing r with
+  | nil => simp [setLoop] at h
+  | cons p t ih =>
+    simp only [setLoop] at h
+    by_cases hp : keyEq k p = true
+    · simp only [hp, if_true, Option.some.injEq] at h
+      subst h
+      simp [List.filter_cons, keyEq_self, hp, List.filter_filter]
+    · have hp' : keyEq k p = false := by simpa using hp
+      simp only [hp', Bool.false_eq_true, if_false] at h
+      cases hs : setLoop k v t with
+      | none => simp [hs] at h
+      | some r' =>
+        simp only [hs, Option.map_some, Option.some.injEq] at h
+        subst h
+        simp [List.filter_cons, hp', ih r' hs]
+
+theorem setLoop_none (k v : Str) (l : HList) (h : setLoop k v l = none) : ∀ p ∈ l, keyEq k p = false := by
+  induction l with
+  | nil => simp
+  | cons p t ih =>
+    simp only [setLoop] at h
+    by_cases hp : keyEq k p = true
+    · simp [hp] at h
+    · simp only [hp] at h
+      have : setLoop k v t = none := by
+        cases hs : setLoop k v t with
+        | none => rfl
+        | some r => simp [hs] at h
+      intro q hq
+      rcases List.mem_cons.1 hq with e | e
+      · subst e; simpa using hp
+      · exact ih this q e
+
+theorem setLoop_none_of (k v : Str) (l : HList) (h : ∀ p ∈ l, keyEq k p = false) : setLoop k v l = none := by
+  induction l with
+  | nil => rfl
+  | cons p t ih =>
+    simp only [setLoop, h p List.mem_cons_self, Bool.false_eq_true, if_false]
+    rw [ih (fun q hq => h q (List.mem_cons_of_mem _ hq))]; rfl
+
+theorem setLoop_findIdx (k v : Str) (l r : HList) (h : setLoop k v l = some r) :
+    r.findIdx (keyEq k) = l.findIdx (keyEq k) ∧ r[l.findIdx (keyEq k)]? = some (k, v) := by
+  induction l generalizing r with
+  | nil => simp [setLoop] at h
+  | cons p t ih =>
+    simp only [setLoop] at h
+    by_cases hp : keyEq k p = true
+    · simp only [hp, if_true, Option.some.injEq] at h
+      subst h
+      simp [List.findIdx_cons, keyEq_self, hp]
+    · have hp' : keyEq k p = false := by simpa using hp
+      simp only [hp', Bool.false_eq_true, if_false] at h
+      cases hs : setLoop k v t with
+      | none => simp [hs] at h
+      | some r' =>
+        simp only [hs, Option.map_some, Option.some.injEq] at h
+        subst h
+        have := ih r' hs
+        simp [List.findIdx_cons, hp', this.1, this.2]
+
+/-- the state after `headers.set(k, v)` for a newline-free value -/
+theorem set_cases (l : HList) (k v : Str) (hv : hasNL v = false) :
+    (∃ r, setLoop k v l = some r ∧ Hdr.set l k v = (r, .ok ())) ∨
+    ((∀ p ∈ l, keyEq k p = false) ∧ Hdr.set l k v = (l ++ [(k, v)], .ok ())) := by
+  unfold Hdr.set
+  rw [strHeaderValue_ok hv]
+  cases l with
+  | nil => right; simp
+  | cons p t =>
+    simp only [List.isEmpty_cons, Bool.false_eq_true, if_false]
+    cases hs : setLoop k v (p :: t) with
+    | some r => left; exact ⟨r, rfl, rfl⟩
+    | none => right; exact ⟨setLoop_none k v _ hs, rfl⟩
+
+
+theorem filter_keyEq_none (k : Str) (l : HList) (h : ∀ p ∈ l, keyEq k p = false) : l.filter (keyEq k) = [] := by
+  rw [List.filter_eq_nil_iff]; intro p hp; simp [h p hp]
+
+theorem filter_notKey_all (k : Str) (l : HList) (h : ∀ p ∈ l, keyEq k p = false) :
+    l.filter (fun p => !keyEq k p) = l := by
+  rw [List.filter_eq_self]; intro p hp; simp [h p hp]
+
+theorem filter_other_key (k k' : Str) (hne : lower k' ≠ lower k) (x : HList) :
+    x.filter (keyEq k') = (x.filter (fun p => !keyEq k p)).filter (keyEq k') := by
+  rw [List.filter_filter]
+  apply List.filter_congr
+  intro a _
+  cases h1 : keyEq k' a with
+  | false => simp
+  | true =>
+    have : keyEq k a = false := by
+      simp only [keyEq, beq_iff_eq] at h1
+      simp only [keyEq, beq_eq_false_iff_ne]
+      intro e; exact hne (h1.symm.trans e)
+    simp [this]
+
+
+end Wz.C08L
